@@ -379,7 +379,7 @@ func runSolver(ctx context.Context, sp solverSpec, file string, sec int) solveOu
 	t0 := time.Now()
 	cctx, cancel := context.WithTimeout(ctx, time.Duration(sec+2)*time.Second)
 	defer cancel()
-	argv := sp.argv(file, sec)
+	argv := append([]string{"nice", "-n", "15"}, sp.argv(file, sec)...)
 	cmd := exec.CommandContext(cctx, argv[0], argv[1:]...)
 	out, _ := cmd.CombinedOutput()
 	secs := time.Since(t0).Seconds()
@@ -453,7 +453,7 @@ func batchSolve(c *Ctx, obls []*Obligation, dir string, stats *solveStats) {
 			t0 := time.Now()
 			ctx, cancel := context.WithTimeout(context.Background(), time.Duration(3*len(part)+10)*time.Second)
 			defer cancel()
-			out, _ := exec.CommandContext(ctx, "z3-new", file).CombinedOutput()
+			out, _ := exec.CommandContext(ctx, "nice", "-n", "15", "z3-new", file).CombinedOutput()
 			secs := time.Since(t0).Seconds()
 			lines := strings.Split(strings.TrimSpace(string(out)), "\n")
 			k := 0
